@@ -59,8 +59,9 @@ Clauses(r) ==
             <<"ReproducibleAfterSampleCache", r.reproaftercache>>,
             <<"SeedMatters", r.seedmatters>> >>
 
-(* since D58: x_max is the grid value tried before the first one whose density reaches the threshold  *)
-SupportConformant(r) == r.hooked /\ r.k >= 0 /\ (r.atfloor \/ (r.k = 0 /\ r.fat) \/ (~r.fat /\ r.fnext))
+(* since D76: x_max = (largest point of the dense grid whose density reaches the effective threshold) / 0.7,   *)
+(* capped at 100: that grid point is in the support (fat) and the next one is not (fnext)                      *)
+SupportConformant(r) == r.hooked /\ (r.atfloor \/ (r.fat /\ r.fnext))
 
 Verdict(r) == IF r.exc # "" THEN <<"UnexpectedException">> ELSE Failing(Clauses(r))
 
